@@ -840,8 +840,17 @@ def str_method(it, s, name):
         return mk(conv)
     if name == "startswith":
         def f(p, *a):
+            if len(a) > 1:
+                raise Unsupported("startswith with start and end")
             if a:
-                raise Unsupported("startswith with start")
+                # s.startswith(p, start), 0 <= start: p is a prefix of s[start:]; beyond the end only the empty prefix matches
+                st = it.term(a[0]) if not isinstance(a[0], int) else I(a[0])
+                if not (isinstance(a[0], int) and a[0] >= 0):
+                    if it.truth(smt.Cmp("<", st, I(0)), "startswith:negative-start"):
+                        raise Unsupported("startswith with a negative start")
+                tail = smt.Substr(s, st, smt.Sub(smt.Len(s), st))
+                ps = list(p) if isinstance(p, tuple) else [p]
+                return Or(*[And(smt.Cmp("<=", st, smt.Len(s)), smt.app("str.prefixof", "Bool", tstr(x), tail)) for x in ps])
             if isinstance(p, tuple):
                 return Or(*[smt.app("str.prefixof", "Bool", tstr(x), s) for x in p])
             return smt.app("str.prefixof", "Bool", tstr(p), s)
